@@ -63,9 +63,34 @@ def h_list(w, n, repl, lens):
                      extra=dict(bounds=dict(n=n, replacement=repl, lens=list(lens))))
 
 
+def regular_scratch_capacity(n, repl, size):
+    """capacity of the toindex/fromindex scratch buffers as RegularArray::combinations allocates them: the size expression is
+    read from the C++ source on every run (DESIGN 2.5 P: source-extracted capacities)"""
+    import os, re
+    from .build import REPO
+    txt = open(os.path.join(REPO, 'src/libawkward/array/RegularArray.cpp')).read()
+    i = txt.index('RegularArray::combinations(')
+    body = txt[i:i + 6000]
+    m = re.search(r'toindex\s*=\s*kernel::malloc<int64_t>\([^,]*,[^\n]*\n?\s*([\w_]+)\s*\*\s*\(int64_t\)sizeof\(int64_t\)', body)
+    if not m:
+        return None, 'allocation of toindex not recognised in RegularArray::combinations'
+    var = m.group(1)
+    if var == 'n':
+        return n, 'n'
+    if var == 'size':
+        return size + (n - 1 if repl else 0), 'size (= size_ + n - 1 with replacement)'
+    if var == 'size_':
+        return size, 'size_'
+    return None, 'allocation size variable %s not understood' % var
+
+
 @guard
 def h_regular(n, repl, size, length):
     cname = 'awkward_RegularArray_combinations_64'
+    scap, sdesc = regular_scratch_capacity(n, repl, size)
+    if scap is None:
+        return dict(unit='%s n=%d repl=%d size=%d length=%d' % (cname, n, repl, size, length), status='unsupported', detail=sdesc,
+                    obligations=[], twins={}, violations=[], unreproduced=[])
     tot = count(size, n, repl) * length
     h = Harness(cname, unwind=max(12, tot + size + n + 6), max_instrs=3000000)
     h.scalar('n', 'int64_t', n); h.scalar('replacement', 'bool', repl); h.scalar('size', 'int64_t', size); h.scalar('length', 'int64_t', length)
@@ -73,7 +98,7 @@ def h_regular(n, repl, size, length):
     for j in range(n):
         h.arr('carry%d' % j, 'int64_t', tot)
         carries.append('carry%d' % j)
-    h.arr('toindex', 'int64_t', n); h.arr('fromindex', 'int64_t', n)
+    h.arr('toindex', 'int64_t', scap); h.arr('fromindex', 'int64_t', scap)       # capacity expression from RegularArray.cpp
     h.kcall(cname, [('ptrs', 'int64_t', carries), ('buf', 'toindex'), ('buf', 'fromindex'), 'n', 'replacement', 'size', 'length'])
 
     def oracle(io):
@@ -91,8 +116,31 @@ def h_regular(n, repl, size, length):
                      extra=dict(bounds=dict(n=n, replacement=repl, size=size, length=length)))
 
 
+@guard
+def h_count(w, n, repl, l):
+    """combinations_length alone for longer lists (the binomial arithmetic): one list of concrete length l at a symbolic start"""
+    ct = ctype_w(w)
+    c1 = 'awkward_ListArray%s_combinations_length_64' % w
+    h = Harness(c1, unwind=n + 8)
+    h.scalar('length', 'int64_t', 1); h.scalar('n', 'int64_t', n); h.scalar('replacement', 'bool', repl)
+    decl_lists(h, 1, l, ct, starts='starts', stops='stops', lens=(l,))
+    h.arr('totallen', 'int64_t', 1); h.arr('tooffsets', 'int64_t', 2)
+    h.kcall(c1, [('buf', 'totallen'), ('buf', 'tooffsets'), 'n', 'replacement', ('buf', 'starts'), ('buf', 'stops'), 'length'])
+
+    def oracle(io):
+        c = count(l, n, repl)
+        return [('no error', io.err()), ('number of tuples is the binomial coefficient', io.y('totallen', 0) != c),
+                ('offsets [0, count]', z3.Or(io.y('tooffsets', 0) != 0, io.y('tooffsets', 1) != c))]
+    return discharge(h, 'ListArray%s combinations_length n=%d repl=%d len=%d' % (w, n, repl, l), oracle, [], extra=dict(bounds=dict(n=n, l=l)))
+
+
 def jobs(tier):
     js = []
+    for w in (('64',) if tier == 'quick' else ('64', '32', 'U32')):
+        for n in range(1, 6):
+            for repl in (False, True):
+                for l in range(5, 33 if tier == 'quick' else 65):
+                    js.append((h_count, (w, n, repl, l), 300))
     NL = 2 if tier == 'quick' else 3
     Lmax = 4
     for w in (('64', 'U32') if tier == 'quick' else ('64', '32', 'U32')):
